@@ -37,7 +37,7 @@ def r1_staged_publication(repo=None):
     r = Rule("C17.R1", "a file reaches its final destination name only by rename of a complete staged tmp. copy (must-pass + rx)")
     m = pyfront.mod("mirror", repo)
     q = HD + ".mirror_to_dest"
-    fvw = m.flat(q)
+    fvw = m.flat(q).dealiased()
     f = fvw.fn()
     g = fvw.cfg()
     srcp = f.args.args[1].arg if len(f.args.args) > 1 else None
@@ -68,6 +68,13 @@ def r1_staged_publication(repo=None):
                     dirs.add(t.id)
                 elif cn == "os.path.basename" and isinstance(t, ast.Name):
                     names.add(t.id)
+            if isinstance(n, ast.Assign) and isinstance(n.value, ast.Subscript) and isinstance(n.value.value, ast.Call) \
+                    and pyfront.call_name(n.value.value) == "os.path.split" and n.value.value.args \
+                    and isinstance(n.value.value.args[0], ast.Name) and n.value.value.args[0].id == path_name \
+                    and isinstance(n.targets[0], ast.Name) and pyfront.const(n.value.slice) in (0, 1):
+                (dirs if pyfront.const(n.value.slice) == 0 else names).add(n.targets[0].id)
+        dirs |= {"os.path.dirname(%s)" % path_name, "os.path.split(%s)[0]" % path_name}
+        names |= {"os.path.basename(%s)" % path_name, "os.path.split(%s)[1]" % path_name}
         return dirs, names
     tvar = destp = None
     if len(stage_calls) == 1 and len(stage_calls[0].args) == 2 and isinstance(stage_calls[0].args[1], ast.Name):
@@ -136,11 +143,34 @@ def r1_staged_publication(repo=None):
     return r
 
 
+def _mirrors(m, q):
+    """(paths handed to self.mirror_to_dest unconditionally, other calls that change the file system) in the event callback q
+    with its private helpers inlined; a path is given as source text with the once-assigned local it went through resolved"""
+    f = m.flat(q).dealiased().fn()
+    body = [x for x in f.body if not (isinstance(x, (ast.Expr, ast.Pass)) and (isinstance(x, ast.Pass) or isinstance(x.value, ast.Constant)))]
+    defs = {}
+    for x in body:
+        if isinstance(x, ast.Assign) and len(x.targets) == 1 and isinstance(x.targets[0], ast.Name):
+            defs.setdefault(x.targets[0].id, []).append(x.value)
+    mirrored = []
+    for x in body:
+        if isinstance(x, ast.Expr) and isinstance(x.value, ast.Call) and pyfront.call_name(x.value) == "self.mirror_to_dest" and len(x.value.args) == 1:
+            a = x.value.args[0]
+            if isinstance(a, ast.Name) and len(defs.get(a.id, [])) == 1:
+                a = defs[a.id][0]
+            mirrored.append(norm(ast.unparse(a)))
+    extra = [c for c in ast.walk(f) if isinstance(c, ast.Call) and (pyfront.call_name(c) or "") in pycalls.MUTATORS]
+    nested = [c for c in ast.walk(f) if isinstance(c, ast.Call) and pyfront.call_name(c) == "self.mirror_to_dest"]
+    if len(nested) != len(mirrored):
+        extra = extra + [c for c in nested]          # a conditional mirror call is not the plain callback the rule knows
+    return mirrored, extra
+
+
 def r2_errors_contained(repo=None):
     r = Rule("C17.R2", "stale, late and duplicate events are contained (errors of the mirror step are caught)")
     m = pyfront.mod("mirror", repo)
     q = HD + ".mirror_to_dest"
-    fvw = m.flat(q)
+    fvw = m.flat(q).dealiased()
     f = fvw.fn()
     n_mut = 0
     for c in pyfront.walk_no_nested(f):
@@ -173,11 +203,8 @@ def r2_errors_contained(repo=None):
         bad_over.append("on_deleted")
     moved_ok = None
     if "on_moved" in meths:
-        mv = m.fn(HD + ".on_moved")
-        body = [x for x in mv.body if not (isinstance(x, ast.Expr) and isinstance(x.value, ast.Constant))]
-        texts = [norm(ast.unparse(x)) for x in body]
-        muts = [c for c in ast.walk(mv) if isinstance(c, ast.Call) and (pyfront.call_name(c) or "") in pycalls.MUTATORS]
-        if texts == ["self.mirror_to_dest(event.dest_path)"] and not muts:
+        mirrored, extra = _mirrors(m, HD + ".on_moved")
+        if mirrored == ["event.dest_path"] and not extra:
             moved_ok = True
         else:
             bad_over.append("on_moved")
@@ -196,8 +223,8 @@ def r2_errors_contained(repo=None):
                     "observer a new metadata file that re-uses the inode of a deleted one is reported exactly so, and is lost "
                     "without ever being copied", line=m.cls(HD).lineno)
     for name in ("on_created", "on_modified"):
-        src = norm(ast.unparse(m.fn(HD + "." + name)))
-        if "self.mirror_to_dest(event.src_path)" in src:
+        mirrored, extra = _mirrors(m, HD + "." + name)
+        if "event.src_path" in mirrored:
             r.ok("%s %s.%s" % (m.rel, HD, name), "mirrors event.src_path")
         else:
             r.violation(m.rel, HD + "." + name, "handler body", "created/modified events are not mirrored", line=m.fn(HD + "." + name).lineno)
